@@ -1,13 +1,13 @@
 import TucanProofs.Lemmas.Pipeline
 import TucanProofs.Examples
+import TucanProofs.Lemmas.Files
 /-!
 # C06 — TUCAN depends only on elements, isotopes, radicals and connectivity
 
 A corollary of C01's theorem: the relation under which the pipeline is invariant (`Iso SameIdent`)
 constrains nothing but the identity colour (element, mass, radical) of corresponding atoms and the
 neighbour *sets*.  Charges, coordinates, bond types and annotations, any further attribute, the
-numbering and every listing order are free.  (That the two readers map renderings which differ only in
-such data to `Iso SameIdent id`-related graphs is C07/C08's business and is checked there.)
+numbering and every listing order are free.  `C06_files_same_string` carries this down to the text of the files, for both readers.
 -/
 namespace Tucan
 
@@ -31,6 +31,38 @@ theorem C06_sameIdent_ignores (x : Atom) (chg : Option Int) (cx cy cz : Option S
     (e : Option Bool) (p : Option Int) :
     SameIdent x { x with chg := chg, x := cx, y := cy, zc := cz, extra := extra, explored := e, part := p } :=
   ⟨rfl, rfl, rfl, rfl, rfl⟩
+
+/-- **C06 at the level of files.**  Two molfile texts — each V3000 or V2000, with any header and comment
+lines, any of the three line-ending styles, any spelling of the table, anything after the connection table —
+that are read as molecules `m` and `m'` of the same identity (`SameIdentity`: the same atom positions with the
+same element, isotope mass and radical, `D` being hydrogen of mass 2; the same bonded pairs, in any order and
+orientation) get the same TUCAN string, whatever the two files say about charges, bond types, bond
+annotations, coordinates, other keywords and blocks. `C06_v3000_file_readsAs` / `C06_v2000_file_readsAs`
+establish the hypothesis `ReadsAs` for the files of the two formats. -/
+theorem C06_files_same_string (O : CanonOracle) (m m' : Mol) (hm : m.Ok) (hm' : m'.Ok) (same : SameIdentity m m')
+    (c c' : List (Str × Str × Str)) (hc : c.length = m.atoms.length) (hc' : c'.length = m'.atoms.length)
+    (text text' : Str) (r : ReadsAs text m c) (r' : ReadsAs text' m' c') (g g' : Graph) (s s' : Str)
+    (hg : graphFromMolfileText text = .ok g) (hg' : graphFromMolfileText text' = .ok g')
+    (hs : tucanOf O.order g = .ok s) (hs' : tucanOf O.order g' = .ok s') : s = s' :=
+  readsAs_same_string O m m' hm hm' same c c' hc hc' text text' r r' g g' s s' hg hg' hs hs'
+
+theorem C06_v3000_file_readsAs (m : Mol) (hm : m.Ok) (coords : List (Str × Str × Str)) (text : Str) (lines : List Str)
+    (atoms : List AtomEntry) (bonds : List BondEntry) (ht : IsTextOf text lines) (f : IsV3000File lines atoms bonds)
+    (hver : ∀ l3, lines[3]? = some l3 → EndsInWord l3 (cs "V3000"))
+    (h : V3States m coords atoms bonds) : ReadsAs text m coords :=
+  v3000_text_reads_mol m hm coords text lines atoms bonds ht f hver h
+
+theorem C06_v2000_file_readsAs (m : Mol) (hm : m.Ok) (text : Str) (lines : List Str)
+    (atoms : List V2Atom) (bonds : List V2Bond) (bl : List BlockLine) (ht : IsTextOf text lines)
+    (f : IsV2000File lines atoms bonds bl) (hver : ∀ l3, lines[3]? = some l3 → EndsInWord l3 (cs "V2000"))
+    (h : V2States m atoms bonds bl) : ReadsAs text m (v2Coords atoms) :=
+  v2000_text_reads_mol m hm text lines atoms bonds bl ht f hver h
+
+/-- the line-ending style is invisible to the readers -/
+theorem C06_line_endings (eol : Str) (he : IsEol eol) (lines : List Str) (hnb : ∀ l ∈ lines, WR.NoBreak l) :
+    splitLines (fileText eol lines) = lines ∧
+    ((∀ l, lines.getLast? = some l → l ≠ []) → splitLines (fileTextNoTrail eol lines) = lines) :=
+  ⟨splitLines_fileText eol he lines hnb, fun h => splitLines_fileTextNoTrail eol he lines hnb h⟩
 
 example : exGraph.WF ∧ exGraph.Simple := ⟨exGraph_wf, exGraph_simple⟩
 
